@@ -299,3 +299,6 @@ PROPS["C09"]["rule"] += (" ; plus real sessions over 2-3 files (displays ending 
 
 PROPS["C07"]["engines"].append(("multifile", {"quick": 30, "thorough": 600}))
 PROPS["C07"]["rule"] += " ; plus real multi-file sessions (one file may live in a directory named like a marker): no test fails in the set-up of the snapshot_check fixture"
+
+PROPS["C09"]["engines"].append(("calls", {"quick": 600, "thorough": 15000}))
+PROPS["C09"]["rule"] += " ; plus constructor calls (harness/engines/calls.py): fix and update approved together and one at a time in both orders give the same call"
